@@ -63,8 +63,16 @@ def pair_template(name, pool, names, tier):
     src += ['print(%s)' % nm for nm in names[:6]]     # comparing leaves all values unchanged
     return {'name': name, 'src': '\n'.join(src) + '\n', 'assume': lambda v: [v['h0'] >= 0, v['h0'] < n, v['h1'] >= 0, v['h1'] < n]}
 
+def ne_template(name, pool, names):
+    # `!=` first: it is the negation of `==` also where `==` is an error
+    n = len(names)
+    src = ['sa := @h0@', 'sb := @h1@'] + pool + ladder('a', 'sa', names) + ladder('b', 'sb', names) + ['print(a != b)', 'print(b != a)', 'print(a == b)']
+    return {'name': name, 'src': '\n'.join(src) + '\n', 'assume': lambda v: [v['h0'] >= 0, v['h0'] < n, v['h1'] >= 0, v['h1'] < n]}
+
 def templates(tier, seed=0):
     ts = []
+    ts.append(ne_template('list-ne-pairs', LIST_POOL, QUICK_LIST[:7] if tier == 'quick' else LIST_NAMES))
+    ts.append(ne_template('obj-ne-pairs', OBJ_POOL, QUICK_OBJ[:7] if tier == 'quick' else OBJ_NAMES))
     if tier == 'quick':
         ts.append(pair_template('list-pairs', LIST_POOL, QUICK_LIST, tier))
         ts.append(pair_template('obj-pairs', OBJ_POOL, QUICK_OBJ, tier))
